@@ -165,11 +165,21 @@ class Run(object):
         return (1 if new else 0), lines, ev
 
 
+_IMPORT_DEPTH = 0
+
+
 def import_rules(run, R, module, repo, want, tier="quick", only=None):
     """Run another property's check in a scratch Run and take over the verdicts of the rules in
     `want` (ids of that property) under rule R of this run.  `only(construct)` filters constructs."""
+    global _IMPORT_DEPTH
+    if _IMPORT_DEPTH > 0:
+        return None             # imports are not transitive (and must not recurse)
     sub = type(run)(run.prop, tier, write=False, known={"findings": [], "fixed": []})
-    module.run(repo, sub, tier)
+    _IMPORT_DEPTH += 1
+    try:
+        module.run(repo, sub, tier)
+    finally:
+        _IMPORT_DEPTH -= 1
     for v in sub.violations:
         if v["rule"] in want and (only is None or only(v["construct"])):
             run.fail(R, "%s:%s" % (v["rule"], v["construct"]), v["message"], v["loc"])
